@@ -1,0 +1,269 @@
+//! Verification hooks (cargo feature `verif`).
+//!
+//! Purely additive instrumentation used by an external verification
+//! harness. With the feature off nothing in this module is compiled.
+//! Every knob is thread local, a fresh thread (or `reset`) gives the
+//! natural behaviour of the runtime.
+
+use laythe_core::object::{Fun, ObjectKind};
+use std::cell::{Cell, RefCell};
+use std::collections::HashSet;
+use std::fmt::Write;
+
+pub use crate::byte_code::{ByteCode, CaptureIndex, Label, SymbolicByteCode};
+pub use laythe_core::verif as core;
+
+thread_local! {
+  static CACHE_BYPASS: Cell<bool> = const { Cell::new(false) };
+  static RULE_MASK: Cell<u32> = const { Cell::new(0) };
+  static COMPILE_ONLY: Cell<bool> = const { Cell::new(false) };
+  static RECORD_COMPILED: Cell<bool> = const { Cell::new(false) };
+  static COMPILED: RefCell<String> = const { RefCell::new(String::new()) };
+  static RECORD_PEEPHOLE: Cell<bool> = const { Cell::new(false) };
+  static PEEPHOLE: RefCell<Vec<PeepholeRecord>> = const { RefCell::new(Vec::new()) };
+  static TRACE: Cell<bool> = const { Cell::new(false) };
+  static STEPS: RefCell<HashSet<(usize, usize, usize, usize)>> = RefCell::new(HashSet::new());
+  static STEP_COUNT: Cell<u64> = const { Cell::new(0) };
+  static STEP_LIMIT: Cell<u64> = const { Cell::new(0) };
+}
+
+/// Input and output of one optimiser run
+pub type PeepholeRecord = (Vec<SymbolicByteCode>, Vec<u16>, Vec<SymbolicByteCode>, Vec<u16>);
+
+/// Restore natural behaviour and clear all recordings
+pub fn reset() {
+  CACHE_BYPASS.with(|c| c.set(false));
+  RULE_MASK.with(|c| c.set(0));
+  COMPILE_ONLY.with(|c| c.set(false));
+  RECORD_COMPILED.with(|c| c.set(false));
+  COMPILED.with(|c| c.borrow_mut().clear());
+  RECORD_PEEPHOLE.with(|c| c.set(false));
+  PEEPHOLE.with(|c| c.borrow_mut().clear());
+  TRACE.with(|c| c.set(false));
+  STEPS.with(|c| c.borrow_mut().clear());
+  STEP_COUNT.with(|c| c.set(0));
+  STEP_LIMIT.with(|c| c.set(0));
+  laythe_core::verif::reset();
+}
+
+/// Force every inline cache lookup to miss
+pub fn set_cache_bypass(on: bool) {
+  CACHE_BYPASS.with(|c| c.set(on));
+}
+
+#[inline]
+pub fn cache_bypass() -> bool {
+  CACHE_BYPASS.with(|c| c.get())
+}
+
+/// Peephole rule ids usable in the rule mask
+pub mod rule {
+  pub const DROP: u32 = 1 << 0;
+  pub const INVOKE: u32 = 1 << 1;
+  pub const SUPER_INVOKE: u32 = 1 << 2;
+  pub const SET_GET_LOCAL: u32 = 1 << 3;
+  pub const SET_GET_BOX: u32 = 1 << 4;
+  pub const SET_GET_CAPTURE: u32 = 1 << 5;
+  pub const SET_GET_MOD_SYM: u32 = 1 << 6;
+  pub const LOAD_LOCAL: u32 = 1 << 7;
+  pub const LOAD_MOD_SYM: u32 = 1 << 8;
+  pub const LOAD_BOX: u32 = 1 << 9;
+  pub const LOAD_CAPTURE: u32 = 1 << 10;
+  pub const DEAD_CODE: u32 = 1 << 11;
+  pub const ALL: u32 = (1 << 12) - 1;
+}
+
+/// Disable the optimiser rules whose bit is set
+pub fn set_rule_mask(mask: u32) {
+  RULE_MASK.with(|c| c.set(mask));
+}
+
+/// Is the rule that would fire on this window masked out
+pub fn rule_masked(window: &[SymbolicByteCode]) -> bool {
+  let mask = RULE_MASK.with(|c| c.get());
+  if mask == 0 {
+    return false;
+  }
+
+  use SymbolicByteCode as S;
+  let rule = match window {
+    [S::Drop, S::Drop, ..] => rule::DROP,
+    [S::GetPropByName(_), S::PropertySlot, S::Call(_), ..] => rule::INVOKE,
+    [S::GetSuper(_), S::Call(_), ..] => rule::SUPER_INVOKE,
+    [S::SetLocal(_), S::Drop, S::GetLocal(_), ..] => rule::SET_GET_LOCAL,
+    [S::SetBox(_), S::Drop, S::GetBox(_), ..] => rule::SET_GET_BOX,
+    [S::SetCapture(_), S::Drop, S::GetCapture(_), ..] => rule::SET_GET_CAPTURE,
+    [S::SetModSym(_), S::Drop, S::GetModSym(_), ..] => rule::SET_GET_MOD_SYM,
+    [S::GetLocal(_), S::GetLocal(_), ..] => rule::LOAD_LOCAL,
+    [S::GetModSym(_), S::GetModSym(_), ..] => rule::LOAD_MOD_SYM,
+    [S::GetBox(_), S::GetBox(_), ..] => rule::LOAD_BOX,
+    [S::GetCapture(_), S::GetCapture(_), ..] => rule::LOAD_CAPTURE,
+    [S::Jump(_) | S::Loop(_) | S::Return | S::Raise, ..] => rule::DEAD_CODE,
+    _ => 0,
+  };
+
+  rule & mask != 0
+}
+
+/// Run the optimiser on a symbolic instruction sequence
+pub fn peephole(
+  instructions: Vec<SymbolicByteCode>,
+  lines: Vec<u16>,
+) -> (Vec<SymbolicByteCode>, Vec<u16>) {
+  crate::compiler::verif_peephole(instructions, lines)
+}
+
+/// Record the input and output of every optimiser run of the compiler
+pub fn set_record_peephole(on: bool) {
+  RECORD_PEEPHOLE.with(|c| c.set(on));
+}
+
+#[inline]
+pub fn recording_peephole() -> bool {
+  RECORD_PEEPHOLE.with(|c| c.get())
+}
+
+pub fn note_peephole(record: PeepholeRecord) {
+  PEEPHOLE.with(|c| c.borrow_mut().push(record));
+}
+
+/// Take the optimiser runs recorded so far
+pub fn take_peephole() -> Vec<PeepholeRecord> {
+  PEEPHOLE.with(|c| std::mem::take(&mut *c.borrow_mut()))
+}
+
+/// Stop after compilation
+pub fn set_compile_only(on: bool) {
+  COMPILE_ONLY.with(|c| c.set(on));
+}
+
+#[inline]
+pub fn compile_only() -> bool {
+  COMPILE_ONLY.with(|c| c.get())
+}
+
+/// Record a dump of every function the compiler emits
+pub fn set_record_compiled(on: bool) {
+  RECORD_COMPILED.with(|c| c.set(on));
+}
+
+/// Take the function dumps recorded so far
+pub fn take_compiled() -> String {
+  COMPILED.with(|c| std::mem::take(&mut *c.borrow_mut()))
+}
+
+/// The names of the byte codes in encoding order
+pub fn op_names() -> Vec<String> {
+  (0..ByteCode::VARIANT_COUNT)
+    .map(|b| format!("{:?}", unsafe { ByteCode::from_byte_unchecked(b as u8) }))
+    .collect()
+}
+
+fn dump_fun(fun: &Fun, out: &mut String) {
+  let chunk = fun.chunk();
+  let _ = write!(
+    out,
+    "FUN id={} arity={} max_slots={} captures={} module={} name={}\nCODE",
+    chunk.instructions().as_ptr() as usize,
+    fun.parameter_count(),
+    fun.max_slots(),
+    fun.capture_count(),
+    fun.module_id(),
+    &*fun.name(),
+  );
+  for b in chunk.instructions() {
+    let _ = write!(out, " {b}");
+  }
+  out.push_str("\nLINES");
+  for offset in 0..chunk.instructions().len() {
+    let _ = write!(out, " {}", chunk.get_line(offset));
+  }
+  let constants = chunk.verif_constants();
+  let _ = write!(out, "\nCONSTS {}", constants.len());
+  for constant in constants {
+    if constant.is_obj_kind(ObjectKind::Fun) {
+      let inner = constant.to_obj().to_fun();
+      let _ = write!(
+        out,
+        " F:{}:{}",
+        inner.chunk().instructions().as_ptr() as usize,
+        inner.capture_count()
+      );
+    } else if constant.is_obj_kind(ObjectKind::String) {
+      out.push_str(" S");
+    } else if constant.is_num() {
+      out.push_str(" N");
+    } else {
+      out.push_str(" O");
+    }
+  }
+  out.push('\n');
+  for constant in constants {
+    if constant.is_obj_kind(ObjectKind::Fun) {
+      dump_fun(&constant.to_obj().to_fun(), out);
+    }
+  }
+}
+
+/// Called by the vm after a module compiled successfully
+pub fn note_compiled(fun: &Fun, property_slots: usize, invoke_slots: usize) {
+  if !RECORD_COMPILED.with(|c| c.get()) {
+    return;
+  }
+
+  COMPILED.with(|c| {
+    let mut out = c.borrow_mut();
+    let _ = writeln!(
+      out,
+      "MODULE id={} property_slots={} invoke_slots={}",
+      fun.module_id(),
+      property_slots,
+      invoke_slots
+    );
+    dump_fun(fun, &mut out);
+  });
+}
+
+/// Record (function, pc, stack depth, live handlers of the frame) at every
+/// executed instruction. `limit` > 0 makes the interpreter raise a panic once
+/// that many instructions were executed (a horizon for non terminating programs)
+pub fn set_trace(on: bool, limit: u64) {
+  TRACE.with(|c| c.set(on));
+  STEP_LIMIT.with(|c| c.set(limit));
+}
+
+#[inline]
+pub fn tracing() -> bool {
+  TRACE.with(|c| c.get()) || STEP_LIMIT.with(|c| c.get()) > 0
+}
+
+pub fn note_step(fun: usize, pc: usize, depth: usize, handlers: usize) {
+  let count = STEP_COUNT.with(|c| {
+    let v = c.get() + 1;
+    c.set(v);
+    v
+  });
+  let limit = STEP_LIMIT.with(|c| c.get());
+  if limit > 0 && count > limit {
+    panic!("VERIF-STEP-LIMIT: more than {limit} instructions executed");
+  }
+  if TRACE.with(|c| c.get()) {
+    STEPS.with(|s| {
+      s.borrow_mut().insert((fun, pc, depth, handlers));
+    });
+  }
+}
+
+/// Number of instructions executed while tracing or under a step limit
+pub fn step_count() -> u64 {
+  STEP_COUNT.with(|c| c.get())
+}
+
+/// Take the distinct trace points recorded so far
+pub fn take_steps() -> Vec<(usize, usize, usize, usize)> {
+  STEPS.with(|s| {
+    let mut steps: Vec<_> = s.borrow_mut().drain().collect();
+    steps.sort_unstable();
+    steps
+  })
+}
